@@ -40,7 +40,7 @@ theorem num_advances_by_nenvs (cfg : Cfg) (s : State) (ops : List Op) :
   run_counts cfg s ops
 
 /-- The same on the state; target and start of the call do not move while the call runs. -/
-theorem env_step_moves_only_the_counter (cfg : Cfg) (s : State) (a : Bool) (d : ℕ) (k : Option ℕ)
+theorem env_step_moves_only_the_counter (cfg : Cfg) (s : State) (a : Bool) (d : ℕ) (k : List Bool)
     (h : s.running = true) :
     (step cfg s (.env a d k)).1.num = s.num + cfg.nEnvs ∧ (step cfg s (.env a d k)).1.total = s.total ∧
       (step cfg s (.env a d k)).1.start = s.start :=
@@ -49,14 +49,14 @@ theorem env_step_moves_only_the_counter (cfg : Cfg) (s : State) (a : Bool) (d : 
 /-- **A stop request ends the call at once**: the counter has moved by this step's `n_envs`, the callback
 saw it, and nothing else happens — no progress update, no `train()`, no further rollout; the update
 counters and the stored progress are untouched. -/
-theorem stop_request_immediate (cfg : Cfg) (s : State) (d : ℕ) (k : Option ℕ) (h : s.running = true) :
+theorem stop_request_immediate (cfg : Cfg) (s : State) (d : ℕ) (k : List Bool) (h : s.running = true) :
     step cfg s (.env true d k) =
       ({ s with num := s.num + cfg.nEnvs, running := false, stopped := true },
         [.step (s.num + cfg.nEnvs) s.progress, .finish (s.num + cfg.nEnvs) true]) := by
   rw [step_env _ _ _ _ _ h, envStep_stop]
 
 /-- After a call ended (normally or by a stop request) nothing moves until the next `learn`. -/
-theorem idle_until_next_learn (cfg : Cfg) (s : State) (a : Bool) (d : ℕ) (k : Option ℕ) (h : s.running = false) :
+theorem idle_until_next_learn (cfg : Cfg) (s : State) (a : Bool) (d : ℕ) (k : List Bool) (h : s.running = false) :
     step cfg s (.env a d k) = (s, []) :=
   step_env_idle cfg s a d k h
 
@@ -133,7 +133,7 @@ followed by `train()` exactly when it completes the rollout (`should_collect_mor
 `num_timesteps > learning_starts`, `> 0`; the number of gradient steps is `gradient_steps`, or for `-1` the
 transitions collected in this rollout (`(colSteps+1) · n_envs`); `gradient_steps = 0` means none. -/
 theorem update_count_off_policy_rollout (cfg : Cfg) (c : OffCfg) (hk : cfg.kind = .off c) (s : State)
-    (hr : s.running = true) (d : ℕ) (k : Option ℕ) :
+    (hr : s.running = true) (d : ℕ) (k : List Bool) :
     trains (step cfg s (.env false d k)).2 =
       if shouldCollectMore c (s.colSteps + 1) (s.colEps + d) = false ∧ 0 < s.num + cfg.nEnvs ∧
           c.learningStarts < s.num + cfg.nEnvs ∧ 0 < gradStepsOf cfg.nEnvs c (s.colSteps + 1)
@@ -144,7 +144,7 @@ theorem update_count_off_policy_rollout (cfg : Cfg) (c : OffCfg) (hk : cfg.kind 
 rollout is followed by one `train()`, with `onTrainCounts` optimizer steps (`1` for A2C,
 `n_epochs · ⌈n_steps·n_envs / batch_size⌉` for PPO unless the KL test cuts it). -/
 theorem update_count_on_policy_rollout (cfg : Cfg) (c : OnCfg) (hk : cfg.kind = .on c) (s : State)
-    (hr : s.running = true) (d : ℕ) (k : Option ℕ) :
+    (hr : s.running = true) (d : ℕ) (k : List Bool) :
     trains (step cfg s (.env false d k)).2 =
       if s.colSteps + 1 < c.nSteps then [] else [(s.num + cfg.nEnvs, (onTrainCounts cfg.nEnvs c k).1)] :=
   trains_on_step cfg c hk s hr d k
@@ -152,13 +152,27 @@ theorem update_count_on_policy_rollout (cfg : Cfg) (c : OnCfg) (hk : cfg.kind = 
 /-- what one un-cut on-policy `train()` does: A2C one optimizer step / one update; PPO
 `n_epochs · ⌈n_steps·n_envs / batch_size⌉` optimizer steps / `n_epochs` updates -/
 theorem on_policy_train_counts (nEnvs : ℕ) (c : OnCfg) :
-    onTrainCounts nEnvs c none =
+    onTrainCounts nEnvs c [] =
       if c.a2c then (1, 1) else (c.nEpochs * ((c.nSteps * nEnvs + c.batch - 1) / c.batch), c.nEpochs) := by
   unfold onTrainCounts ppoFull nBatches
-  cases c.a2c <;> simp
+  cases c.a2c <;> simp [firstTrue]
 
-/-- PPO's `target_kl` exit can only remove optimizer steps (and never adds updates). -/
-theorem kl_exit_only_removes_updates (nEnvs : ℕ) (c : OnCfg) (kl : Option ℕ) (h : c.a2c = false) :
+/-- **PPO's `target_kl` exit, exact count.** With one flag per minibatch ("this minibatch's approximate KL exceeds
+`1.5·target_kl`", in evaluation order over the epochs), a `train()` makes exactly `u` optimizer steps where `u` is the
+index of the FIRST flagged minibatch among the `n_epochs·⌈R/batch⌉` of the call — every earlier minibatch got its
+step, the flagged one and all later ones did not — or all of them when none is flagged; `_n_updates` counts the
+epochs begun (`u / nb + 1`, resp. `n_epochs`). -/
+theorem kl_exit_exact_count (nEnvs : ℕ) (c : OnCfg) (kl : List Bool) (h : c.a2c = false) :
+    (onTrainCounts nEnvs c kl).1 ≤ ppoFull nEnvs c ∧
+      (∀ i, i < (onTrainCounts nEnvs c kl).1 → kl.getD i false = false) ∧
+      ((onTrainCounts nEnvs c kl).1 < ppoFull nEnvs c → kl.getD (onTrainCounts nEnvs c kl).1 false = true) ∧
+      ((onTrainCounts nEnvs c kl).1 < ppoFull nEnvs c →
+        (onTrainCounts nEnvs c kl).2 = (onTrainCounts nEnvs c kl).1 / nBatches (c.nSteps * nEnvs) c.batch + 1) ∧
+      ((onTrainCounts nEnvs c kl).1 = ppoFull nEnvs c → (onTrainCounts nEnvs c kl).2 = c.nEpochs) :=
+  onTrainCounts_exact nEnvs c kl h
+
+/-- in particular the exit can only remove optimizer steps (and never adds updates) -/
+theorem kl_exit_only_removes_updates (nEnvs : ℕ) (c : OnCfg) (kl : List Bool) (h : c.a2c = false) :
     (onTrainCounts nEnvs c kl).1 ≤ ppoFull nEnvs c ∧ (onTrainCounts nEnvs c kl).2 ≤ c.nEpochs :=
   onTrainCounts_le nEnvs c kl h
 
@@ -167,16 +181,16 @@ was not stopped, with no KL exit, made exactly `⌈T/R⌉` `train()` calls: the 
 `⌈T/R⌉ · (1 | n_epochs·⌈R/batch⌉)` times and `_n_updates` grew by `⌈T/R⌉ · (1 | n_epochs)`. -/
 theorem update_count_on_policy (cfg : Cfg) (c : OnCfg) (hk : cfg.kind = .on c) (hn : 0 < cfg.nEnvs) (hL : 0 < c.nSteps)
     (s0 : State) (h0 : s0.running = false) (T : ℕ) (r : Bool) (ins : List Op)
-    (hins : ∀ op ∈ ins, ∃ a d, op = .env a d none) :
+    (hins : ∀ op ∈ ins, ∃ a d, op = .env a d []) :
     let s := (run cfg s0 (.learn T r :: ins)).1
     let m := ceilDiv T (cfg.nEnvs * c.nSteps)
     s.running = false → s.stopped = false →
-      s.optSteps = s0.optSteps + (onTrainCounts cfg.nEnvs c none).1 * m ∧
-        s.nUpdates = s0.nUpdates + (onTrainCounts cfg.nEnvs c none).2 * m := by
+      s.optSteps = s0.optSteps + (onTrainCounts cfg.nEnvs c []).1 * m ∧
+        s.nUpdates = s0.nUpdates + (onTrainCounts cfg.nEnvs c []).2 * m := by
   intro s m hr hs
-  have inv := onInv_call cfg c true hk hL s0 h0 T r (onTrainCounts cfg.nEnvs c none).1
-    (onTrainCounts cfg.nEnvs c none).2 ins
-    (fun op hop => by obtain ⟨a, d, rfl⟩ := hins op hop; exact ⟨a, d, none, rfl, fun _ => rfl⟩)
+  have inv := onInv_call cfg c true hk hL s0 h0 T r (onTrainCounts cfg.nEnvs c []).1
+    (onTrainCounts cfg.nEnvs c []).2 ins
+    (fun op hop => by obtain ⟨a, d, rfl⟩ := hins op hop; exact ⟨a, d, [], rfl, fun _ => rfl⟩)
   obtain ⟨i, _, h1, h2, hc⟩ := inv.fin hr hs
   have : i = m := ceil_unique _ T i (Nat.mul_pos hn hL) h1 h2
   rw [this] at hc
@@ -329,14 +343,14 @@ example : (run exPPO State.init (.learn 20 true :: quiet 12)).1.running = false 
 example : (run exPPO State.init (.learn 20 true :: quiet 12)).1.stopped = false := by decide +kernel
 example : (run exPPO State.init (.learn 20 true :: quiet 12)).1.optSteps = 18 := by decide +kernel
 example : 0 + exPPO.nEnvs * 4 * ceilDiv 20 (exPPO.nEnvs * 4) = 24 := by decide
-example : ∀ op ∈ quiet 12, ∃ a d, op = Op.env a d none := by
+example : ∀ op ∈ quiet 12, ∃ a d, op = Op.env a d [] := by
   intro op h; exact ⟨false, 0, by simpa [quiet] using (List.eq_of_mem_replicate h)⟩
 /-- the last progress of that call would be `1 - 24/20 < 0` without the clamp -/
 example : progressOf 24 20 = 0 ∧ progressOf 16 20 = 1 / 5 := by decide +kernel
 /-- a second call without reset continues at 24 towards 24 + 5 and is stopped by the callback at its 3rd step -/
 example :
-    (run exPPO State.init (.learn 20 true :: quiet 12 ++ [.learn 5 false, .env false 0 none, .env false 0 none,
-      .env true 0 none])).1 =
+    (run exPPO State.init (.learn 20 true :: quiet 12 ++ [.learn 5 false, .env false 0 [], .env false 0 [],
+      .env true 0 []])).1 =
       { num := 30, total := 29, start := 24, progress := 0, nUpdates := 6, optSteps := 18, episodeNum := 0,
         running := false, stopped := true, colSteps := 2, colEps := 0 } := by decide +kernel
 /-- DQN, 4 envs, `train_freq = 2`, `gradient_steps = -1`, `learning_starts = 8`, `learn(10)`: boundaries 8, 16;
@@ -348,11 +362,15 @@ example : gradStepsOf exDQN.nEnvs ⟨2, .step, -1, 8, 0⟩ 2 * (ceilDiv 10 8 - m
 /-- TD3, one episode per rollout: episodes of 2, 1 and 2 steps; updates only once `num > 2` -/
 example :
     trains (run exTD3 State.init
-      [.learn 4 true, .env false 0 none, .env false 1 none, .env false 1 none, .env false 0 none, .env false 1 none]).2 =
+      [.learn 4 true, .env false 0 [], .env false 1 [], .env false 1 [], .env false 0 [], .env false 1 []]).2 =
       [(3, 3), (5, 3)] := by decide +kernel
 example : actorSteps 2 3 5 = 3 := by decide
-/-- PPO with a KL exit after 4 of the 6 optimizer steps: epoch `4 / 3 = 1` was running, 2 updates counted -/
-example : onTrainCounts 2 ⟨4, false, 3, 2⟩ (some 4) = (4, 2) := by decide
+/-- PPO, 2 epochs × 3 minibatches: the 5th minibatch (index 4, in epoch `4 / 3 = 1`) is the first whose KL exceeds —
+4 optimizer steps, 2 updates counted; a later flag (index 5) changes nothing, a flag beyond the call's minibatches
+is never reached -/
+example : onTrainCounts 2 ⟨4, false, 3, 2⟩ [false, false, false, false, true, true] = (4, 2) := by decide
+example : onTrainCounts 2 ⟨4, false, 3, 2⟩ [false, false, false, false, false, false, true] = (6, 2) := by decide
+example : onTrainCounts 2 ⟨4, false, 3, 2⟩ [true] = (0, 1) := by decide
 example : linearFn 1 (1 / 20) (1 / 10) (19 / 20) = 21 / 40 := by decide +kernel
 
 end SB3Verif.C12
